@@ -13,7 +13,7 @@ import (
 
 func init() {
 	propertyRules["C10"] = []ruleFn{ruleEpochOwner, ruleTimerOwner, ruleInitArms, ruleRearm, ruleTimeoutNonNeg}
-	propertyExplain["C10"] = "Inductive argument whose obligations are all static: BlockIndex/ViewNumber are written only by the epoch writer (O-EPOCH); Timer.Reset is called only from one wrapper with (BlockIndex, ViewNumber) read at the call (O-TIMER-RESET, P-TIMER-EPOCH); in every initialiser every non-watch-only path from the epoch-writer call to a return passes the wrapper and no epoch write follows the last arming (M-INIT-ARMS); every admitted timeout path re-arms (M-REARM); durations handed to the wrapper are non-negative by construction where measured quantities are subtracted (A-TIMEOUT-NONNEG). Adequacy of the durations and that the injected timer fires are not decided."
+	propertyExplain["C10"] = "Inductive argument whose obligations are all static: BlockIndex/ViewNumber are written only by the epoch writer (O-EPOCH); Timer.Reset is called only from one wrapper with (BlockIndex, ViewNumber) read at the call (O-TIMER-RESET, P-TIMER-EPOCH); in every initialiser every non-watch-only path from the epoch-writer call to a return passes the wrapper and no epoch write follows the last arming (M-INIT-ARMS); every admitted timeout path re-arms (M-REARM); durations handed to the wrapper are non-negative by construction where measured quantities are subtracted (A-TIMEOUT-NONNEG). For the shipped timer (package timer) Extend never leaves a pending expiry disarmed (A-EXTEND). Adequacy of the durations and that an injected timer fires are not decided."
 	propertyRules["C12"] = []ruleFn{ruleStaleIndex, ruleAnswer, ruleRejectSet, ruleRequestTx, ruleViewResetCover}
 	propertyRules["C12"] = append(propertyRules["C12"], ruleCompletionNoticed, ruleOwnAnswerComplete)
 	propertyExplain["C12"] = "STALE-MISSING: an index derived from MissingTransactions is never used on that slice after a call that may rewrite it; M-ANSWER: in the function recording a delivered transaction every path on which all transactions are present and the node is a non-watch-only backup ends in a PrepareResponse send or in the verifier's false result, whose summary must send a ChangeView; G-REJECT-SET: OnTransaction rejects a delivery only for the reasons the property allows; P-REQUEST: RequestTx receives the missing list. Interleavings with double deliveries and timing against the view timer are not decided."
